@@ -1,6 +1,35 @@
-import IwModel.Model.Exf
-/-! # C12 — reads through the extensible file return the bytes last written -/
+import IwModel.Lemmas.Exf
+/-! # C12 — reads through the extensible file return the bytes last written
+
+Property theorems only; definitions of the model are in `IwModel/Model/Exf.lean` (mirrors
+src/fs/iwexfile.c), helper lemmas and the flat reference machine in `IwModel/Lemmas/Exf.lean`. -/
 namespace IwModel.C12
 open IwModel IwModel.Exf
+
+/-- **Request splitting.** For every window list (sorted or not, overlapping or not, mapped or not), every
+    offset and every length, the pieces produced by the loop of `_exfile_read`/`_exfile_write` are
+    non-empty, contiguous, in order, and cover `[off, off+n)` exactly once; and every piece that goes
+    through a window names an existing window and lies inside the mapped part of that window. -/
+theorem segments_partition (slots : List Slot) (off n : Nat) :
+    Chain off (segs slots 0 off n) n ∧ SlotPiecesOk slots (segs slots 0 off n) :=
+  ⟨segs_chain slots 0 off n, segs_slotPiecesOk slots off n⟩
+
+/-- **Shared windows refine one flat byte array.** Starting from any state whose windows are all shared,
+    every history of write / read / copy / truncate / ensure_size / add (shared) / remove window / store
+    through a mapping / remap_all gives exactly the results (return codes, bytes read) and the final state
+    of the flat reference machine, in which `read` is one `pread` clipped at the logical size, `write` is
+    `ensure_size` followed by one `pwrite`, and nothing is split. -/
+theorem shared_refines_flat (st : St) (ops : List Op) (hs : AllShared st.slots) (hops : ∀ op ∈ ops, op.shared) :
+    run st ops = flatRun st ops :=
+  run_eq_flatRun ops st hs hops
+
+/-- **Sizes.** Whatever the history (shared or private windows, failed calls included), the logical size
+    stays a multiple of the page size and, when a maximum offset is configured, never exceeds it. -/
+theorem size_inv (st : St) (ops : List Op) (h : SizeInv st) : SizeInv (run st ops).1 :=
+  run_sizeInv ops st h
+
+/-- non-vacuity: a freshly opened file satisfies the size invariant and has only shared windows -/
+example : SizeInv ({ psize := 4096, cbuf := 4096 } : St) ∧ AllShared ({ psize := 4096, cbuf := 4096 } : St).slots :=
+  ⟨⟨by decide, by decide, by simp⟩, by simp [AllShared]⟩
 
 end IwModel.C12
